@@ -67,7 +67,18 @@ class _Id(T):
         return "Id"
 
 
+class _Str(T):
+    """python str as a z3 string (used where text is built: URLs)"""
+
+    def comps(self):
+        return [z3.StringSort()]
+
+    def __repr__(self):
+        return "Str"
+
+
 Real, Int, Bool, Id = _Real(), _Int(), _Bool(), _Id()
+Str = _Str()
 
 
 class RefT(T):
@@ -366,6 +377,12 @@ def pack(t: T, v):
         return [z]
     if t is Bool:
         return [to_bool(v)]
+    if t is Str:
+        if isinstance(v, str):
+            return [z3.StringVal(v)]
+        if is_z3(v) and v.sort() == z3.StringSort():
+            return [v]
+        raise TypeError(f"not a string: {v!r}")
     if t is Id:
         if isinstance(v, str):
             return [id_const(v)]
@@ -417,7 +434,7 @@ def pack(t: T, v):
 def unpack(t: T, cs):
     """list of z3 component terms -> value of type t."""
     cs = list(cs)
-    if t in (Real, Int, Bool, Id):
+    if t in (Real, Int, Bool, Id, Str):
         return cs[0]
     if isinstance(t, RefT):
         return ObjV(cs[0], t.cls, t.nullable, t.exact)
@@ -505,6 +522,8 @@ def type_of(v) -> T | None:
             return Real
         if v.sort() == IdSort:
             return Id
+        if v.sort() == z3.StringSort():
+            return Str
         return None
     if isinstance(v, ObjV):
         return RefT(v.cls, v.nullable, v.exact)
